@@ -93,6 +93,21 @@ def call_stmt(ex, e, st):
             v = ex.ev(e.args[1], st)
             st.env[name] = prepend(base, v)
             return
+    if isinstance(f, ast.Attribute) and isinstance(f.value, ast.Name) and f.attr == "append" and isinstance(st.env.get(f.value.id), Coll) \
+            and st.env[f.value.id].form == "plainlist":
+        x = ex.ev(e.args[0], st)
+        ex.prove(st, f"collection-invariant:{f.value.id}:{ex.ordinal('coll')}", coll_invariant(ex, st, f.value.id, x), e.lineno)
+        return
+    if isinstance(f, ast.Attribute) and isinstance(f.value, ast.Name) and f.attr == "add" and isinstance(st.env.get(f.value.id), Coll):
+        x = ex.ev(e.args[0], st)
+        ex.prove(st, f"collection-invariant:{f.value.id}:{ex.ordinal('coll')}", coll_invariant(ex, st, f.value.id, x), e.lineno)
+        return
+    if isinstance(f, ast.Attribute) and isinstance(f.value, ast.Name) and f.attr == "add" and isinstance(st.env.get(f.value.id), PySet):
+        base = st.env[f.value.id]
+        if base.items:
+            raise U("adding to a non-empty set (element equality)")
+        st.env[f.value.id] = PySet([ex.ev(e.args[0], st)])
+        return
     if isinstance(f, ast.Name) and f.id == "print":
         return
     if isinstance(f, ast.Attribute) and f.attr == "__init__" and isinstance(f.value, ast.Call) and isinstance(f.value.func, ast.Name) \
@@ -117,6 +132,26 @@ def call_stmt(ex, e, st):
             if not any(("(" + n_ + " ") in txt for n_ in names):
                 keep.append(p_)
         st.pc = keep
+        return
+    if isinstance(f, ast.Name) and f.id == "same_string":
+        # ghost: same_string(lst, k, s): the string held at the literal position k of the list `lst` is proved equal (length and every character) to the
+        # string s, and from here on it is denoted by s's term.  Python strings are immutable values: two strings with equal content are
+        # indistinguishable to everything modelled here (identity tests are unsupported), so renaming the term changes no behaviour.
+        from pyvc.sym import seq_eq
+        name = e.args[0].id
+        k_ = e.args[1].value
+        base = st.env[name]
+        ex.quiet += 1
+        try:
+            other = ex.ev(e.args[2], st.clone())
+        finally:
+            ex.quiet -= 1
+        if not (isinstance(base, Tup) and isinstance(base.items[k_], Seq) and isinstance(other, Seq) and base.items[k_].kind == "str" and other.kind == "str"):
+            raise U("same_string on something that is not a string in a list")
+        ex.prove(st, f"same-string:{ex.ordinal('same')}", seq_eq(base.items[k_], other), e.lineno)
+        items = list(base.items)
+        items[k_] = other
+        st.env[name] = Tup(items)
         return
     if isinstance(f, ast.Name) and f.id == "mark":
         # ghost: mark(t) makes the facts whose trigger is here(.) available at t.  here is an otherwise unconstrained predicate, so
@@ -191,7 +226,51 @@ def prepend(base, v):
 
 
 def delete(ex, s, st):
+    """del d[k][i] (an entry of a list held in a dict) and del d[k] (a key), d an  int -> list of ints  dict."""
     from pyvc.engine import Outcome
+    from pyvc.sym import DictV
+    if len(s.targets) != 1 or not isinstance(s.targets[0], ast.Subscript):
+        raise U("del statement")
+    tgt = s.targets[0]
+    line = s.lineno
+
+    def atom(t):
+        """a key / position that is an if-then-else term is named by a fresh constant (ite terms may not occur in triggers built over the updated maps)."""
+        from pyvc.sym import has_ite
+        if z3.is_expr(t) and has_ite(t):
+            c_ = fresh("key")
+            st.assume(c_ == t)
+            return c_
+        return t
+    if isinstance(tgt.value, ast.Subscript) and isinstance(tgt.value.value, ast.Name) and isinstance(st.env.get(tgt.value.value.id), DictV):
+        name = tgt.value.value.id
+        d = st.env[name]
+        k_ = atom(toint(ex.ev(tgt.value.slice, st)))
+        ex.may_raise(st, "KeyError", z3.Not(d.has[k_]), f"key:{ex.ordinal('key')}", line)
+        lst = d.value(k_)
+        i_ = atom(toint(ex.ev(tgt.slice, st)))
+        ex.may_raise(st, "IndexError", z3.Or(i_ < -lst.n, i_ >= lst.n), f"index:{ex.ordinal('idx')}", line)
+        i_ = z3.If(i_ < 0, i_ + lst.n, i_)
+        ex.frame_store(st, name, line)
+        new = z3.K(I, iv(0))
+        for p_ in range(lst.maxlen - 1):            # the list without position i (lists held in these dicts have at most maxlen entries)
+            new = z3.Store(new, p_, z3.If(p_ < i_, lst.arr[p_], lst.arr[p_ + 1]))
+        st.env[name] = DictV(d.has, z3.Store(d.varr, k_, new), z3.Store(d.vlen, k_, lst.n - 1), d.order)
+        return [Outcome("normal", st)]
+    if isinstance(tgt.value, ast.Name) and isinstance(st.env.get(tgt.value.id), DictV):
+        name = tgt.value.id
+        d = st.env[name]
+        k_ = atom(toint(ex.ev(tgt.slice, st)))
+        ex.may_raise(st, "KeyError", z3.Not(d.has[k_]), f"key:{ex.ordinal('key')}", line)
+        ex.frame_store(st, name, line)
+        # insertion order without k: the position q of k is a witness (a key that is present occurs in the order - representation invariant)
+        q = fresh("delpos")
+        order = fresh_seq("order", d.order.kind, d.order.elem)
+        i = z3.Int("i#del")
+        st.assume(z3.And(0 <= q, q < d.order.n, d.order.at(q) == k_, order.n == d.order.n - 1))
+        st.assume(z3.ForAll([i], z3.Implies(z3.And(0 <= i, i < order.n), order.arr[i] == z3.If(i < q, d.order.at(i), d.order.at(i + 1))), patterns=[order.arr[i]]))
+        st.env[name] = DictV(z3.Store(d.has, k_, z3.BoolVal(False)), d.varr, d.vlen, order)
+        return [Outcome("normal", st)]
     raise U("del statement")
 
 
@@ -207,11 +286,21 @@ def b_len(ex, e, st):
         return v[2].order.n
     if isinstance(v, Tup):
         return iv(len(v.items))
+    if isinstance(v, PySet):
+        return iv(len(v.items))
+    from pyvc.engine import is_opaque
+    if is_opaque(v) or isinstance(v, Coll):
+        n_ = fresh("len")
+        st.assume(n_ >= 0)
+        return n_
     if isinstance(v, Mat):
         return v.rows
     if isinstance(v, Row):
         return v.n
     raise U(f"len of {v!r}")
+
+
+INT_MAX_STR_DIGITS = 4300      # sys.get_int_max_str_digits() default (CPython >= 3.11); checked against the interpreter by selftest/library_conformance.py
 
 
 def b_int(ex, e, st):
@@ -220,12 +309,14 @@ def b_int(ex, e, st):
     if isinstance(v, MaybeFloat):
         return v.value
     if isinstance(v, Seq) and v.elem == "char":
-        ex.may_raise(st, "ValueError", z3.Not(z3.And(v.n >= 1, specz3.seq_digits(v))), f"int-of-str:{ex.ordinal('int')}", e.lineno)
+        # CPython: int(str) raises ValueError on a non-numeral AND on more than sys.int_max_str_digits (4300) digit characters
+        ex.may_raise(st, "ValueError", z3.Not(z3.And(v.n >= 1, specz3.seq_digits(v), v.n <= INT_MAX_STR_DIGITS)), f"int-of-str:{ex.ordinal('int')}", e.lineno)
         if lit(v.n) == 1:
             return specz3.digit_of(v, 0)
         return specz3.seq_pv(v, iv(0), v.n, 10)
     if isinstance(v, FloatV):
-        raise U("int() of a float")
+        from pyvc import library
+        return library.int_of_float(ex, st, v, e.lineno)
     return toint(v)
 
 
@@ -246,6 +337,8 @@ def dec_str(ex, st, x, line):
         return out1
     ex.prove(st, f"str-of-nonnegative-int:{ex.ordinal('str')}", x >= 0, line)
     st.assume(x >= 0)
+    # CPython: str(int) raises ValueError beyond 4300 digits
+    ex.prove(st, f"str-of-int-within-digit-limit:{ex.ordinal('strlim')}", x < iv(10 ** INT_MAX_STR_DIGITS), line)
     out = fresh_seq("decstr", "str", "char")
     out.intval = x
     st.assume(z3.And(out.n >= 1, specz3.seq_digits(out), z3.Or(out.n == 1, specz3.digit_of(out, 0) != 0),
@@ -266,6 +359,14 @@ def b_str(ex, e, st):
 
 def b_list(ex, e, st):
     v = ex.ev(e.args[0], st)
+    if isinstance(v, Coll) and v.form == "set":
+        return Coll(v.name, "list")
+    if isinstance(v, Coll) and v.form == "plainlist":
+        return v
+    if isinstance(v, PySet):
+        if len(v.items) > 1:
+            raise U("list() of a set with several elements (iteration order)")
+        return Tup(list(v.items))
     if isinstance(v, Seq):
         if v.kind == "str":
             return v.retag("list", "char")
@@ -357,7 +458,64 @@ def b_bool(ex, e, st):
     return tobool(ex.ev(e.args[0], st))
 
 
-BUILTINS = {"len": b_len, "int": b_int, "str": b_str, "list": b_list, "map": b_map, "divmod": b_divmod, "type": b_type,
+class PySet:
+    """a Python set of strings with at most ONE element (the clean-strand path of repair_dna): enough to say what `sorted(list(s))` is."""
+
+    def __init__(self, items):
+        self.items = list(items)
+
+
+class Coll:
+    """a collection the contract declares with an ELEMENT INVARIANT (contract key collections = {name: spec text over `candidate`}): every `.add(x)`
+    carries the obligation invariant[candidate := x]; nothing else about its content is tracked.  Values derived from it (list(c), sorted(list(c)))
+    keep the invariant: list / sorted return the same elements (trusted library contract), sorted(list(set)) is strictly increasing."""
+
+    def __init__(self, name, form="set"):
+        self.name, self.form = name, form
+
+
+def coll_invariant(ex, st, name, x):
+    from pyvc.engine import tobool
+    txt = ex.c.get("collections", {}).get(name)
+    if txt is None:
+        raise U(f"collection {name} has no declared element invariant")
+    t = st.clone()
+    t.env["candidate"] = x
+    ex.quiet += 1
+    try:
+        g = tobool(ex.ev(speclang.parse(txt), t))
+    finally:
+        ex.quiet -= 1
+    return g
+
+
+def b_set(ex, e, st):
+    if e.args or e.keywords:
+        raise U("set() of an iterable")
+    return PySet([])
+
+
+def b_zip(ex, e, st):
+    vals = [ex.ev(a_, st) for a_ in e.args]
+    if not all(isinstance(v, Tup) for v in vals) or e.keywords:
+        raise U("zip of non-lists")
+    n = min(len(v.items) for v in vals)
+    return Tup([Tup([v.items[j] for v in vals]) for j in range(n)])
+
+
+def b_sorted(ex, e, st):
+    v = ex.ev(e.args[0], st)
+    if isinstance(v, Coll) and v.form == "list" and not e.keywords and len(e.args) == 1:
+        ex.trusted_used.add("sorted(list(a set of strings)): the same strings, strictly increasing (hence duplicate-free)")
+        return Coll(v.name, "sorted")
+    if isinstance(v, Coll) and v.form == "plainlist" and not e.keywords and len(e.args) == 1:
+        return Coll(v.name, "sorted-with-possible-duplicates")
+    if isinstance(v, Tup) and len(v.items) <= 1 and not e.keywords and len(e.args) == 1:
+        return Tup(list(v.items))
+    raise U("sorted() of this value")
+
+
+BUILTINS = {"set": b_set, "zip": b_zip, "sorted": b_sorted, "len": b_len, "int": b_int, "str": b_str, "list": b_list, "map": b_map, "divmod": b_divmod, "type": b_type,
             "print": b_print, "Monitor": b_monitor_ctor, "abs": b_abs, "bool": b_bool}
 
 
@@ -543,6 +701,8 @@ def apply_contract(ex, st, name, c, args, line):
             st.assume(g)
         ex.called = getattr(ex, "called", set())
         ex.called.add(c["name"])
+        if c.get("assumed"):
+            ex.trusted_used.add("ASSUMED contract (not verified; checked in the bounded tier only) of " + c["name"] + ": " + "; ".join(c.get("ensures", {}).values())[:200])
         return res
     finally:
         ex.old = saved_old
